@@ -190,6 +190,11 @@ func (w *signWorld) str(pos string) string {
 			n += fmt.Sprint(t.Draw(30, "str:envname-n"))
 		}
 		return n
+	case "penv.value", "env.value":
+		// empty values are legal and matter: "present but empty" must stay distinct from "absent"
+		if t.Draw(6, "str:emptyval") == 5 {
+			return ""
+		}
 	case "matrix.dim":
 		return []string{"os", "arch", "go", "node-version", "x.y"}[t.Draw(5, "str:dim")]
 	}
